@@ -91,7 +91,11 @@ impl State {
             // If the counter is already idle, and no updates were made since the last time the counter was flushed,
             // then we've already emitted our zero value and no longer need to emit updates until the counter is active
             // again.
-            if points_flushed == 0 {
+            //
+            // An increment bumps the counter value before it bumps the update count, so a flush that lands between
+            // the two sees a non-zero delta with zero updates. That delta has already been consumed by `flush()`, so
+            // it must be sent now rather than being mistaken for idleness.
+            if points_flushed == 0 && value == 0 {
                 if flush_state.is_counter_idle(&key) {
                     continue;
                 }
